@@ -5,7 +5,7 @@
  *   C12  the URI is left unchanged */
 #include "vh.h"
 #ifdef V_CONTENT
-# define VSTUB_MEMCPY 1      /* byte loop: content obligation, fixed ample capacity */
+# define VSTUB_MEMCPY 1      /* element loop: content obligation, fixed ample capacity */
 #else
 # define VSTUB_MEMCPY 2      /* check-only: capacity obligation, every capacity symbolic, exact-size destination */
 #endif
